@@ -7,7 +7,7 @@
 set -u
 ROOT="$(cd "$(dirname "${BASH_SOURCE[0]}")/.." && pwd)"
 LEAN="${LEAN:-lean}"
-FILES=(L1.lean L2.lean L4.lean SmtForms.lean)
+FILES=(L1.lean L2.lean L4.lean L5.lean SmtForms.lean)
 ALLOWED_AXIOMS='propext Classical.choice Quot.sound'
 
 if ! command -v "$LEAN" >/dev/null 2>&1; then
